@@ -1311,6 +1311,16 @@ M('C19', 'possible_multi_couplings tests the coupling shape with min(...) < 1 (t
   "        coupling_shape, shift_lat_indices = self.multi_coupling_shape(dx[0, :, :])\n        if any([s <= 0 for s in coupling_shape]):", "        coupling_shape, shift_lat_indices = self.multi_coupling_shape(dx[0, :, :])\n        if min(coupling_shape) < 1:",
   None, expect='silent')
 
+M('C05', 'original defect: svd(full_matrices=True) does not gauge the new leg of VH', 'tenpy/linalg/np_conserved.py',
+  "        if np.any(qtotal_R != 0):\n            charges = chinfo.make_valid(new_leg_R.charges + new_leg_R.qconj * qtotal_R)\n            new_leg_R = LegCharge.from_qind(chinfo, new_leg_R.slices, charges, new_leg_R.qconj)\n", "",
+  'CHARGE-factor')
+M('C05', 'svd(full_matrices=True) gauges the new leg of U with the wrong sign', 'tenpy/linalg/np_conserved.py',
+  "            charges = chinfo.make_valid(new_leg_L.charges + new_leg_L.qconj * qtotal_L)", "            charges = chinfo.make_valid(new_leg_L.charges - new_leg_L.qconj * qtotal_L)",
+  'CHARGE-factor')
+M('C05', 'original defect: svd(full_matrices=True) leaves sectors without a block out of VH', 'tenpy/linalg/np_conserved.py',
+  "        for qi in range(a.legs[1].block_number):\n            if qi not in qi_R:\n                qi_R = np.append(qi_R, qi)\n                VH_data.append(np.eye(a.legs[1].get_block_sizes()[qi], dtype=a.dtype))\n", "",
+  'FACT-full-unitary')
+
 # ---------------------------------------------------------------- C16 / C19
 M('C16', 'GMRES restart: relative residual norm used for normalisation (round-3 seed b)', KRY,
   """        self.total_error.append([npc.norm(self.rs[-1]) / self.b_norm])
